@@ -101,7 +101,14 @@ def main(chk):
                        'lockset table for shared attributes; per-command lock created acquired before publication, released '
                        'exactly once in a finally, result consumed under the command lock.')
     tree = M.py(CT)
-    cls = M.find_class(tree, 'CommandManager')
+    cls_raw = M.find_class(tree, 'CommandManager')
+    # private helpers a maintainer may have factored out of the entry points are inlined again (model.inline_helpers): the rules below are written against the
+    # entry points of the pinned tree; anything else that starts with an underscore and is called at statement level is analysed as part of its caller
+    VOCAB = set(M.methods(cls_raw))
+    PINNED = ('__init__', 'add_interface', 'add_function', 'execute_commands', 'wait_for_cmd', 'run_queued_commands', 'run_command', 'pause_on_next', 'wait', 'cont', 'get_result',
+              'get_task_lock', 'get_prop', 'set_prop', 'solver_method', 'get_status', 'get_task_status', 'set_log_level', 'dispatch', 'get_particle_array_names',
+              'get_named_particle_array', 'get_particle_array_index', 'get_particle_array_from_procs', 'get_particle_array_combined', 'get_output_directory')
+    cls = M.inlined_class(cls_raw, keep=set(PINNED) | set(n_ for n_ in VOCAB if not n_.startswith('_')))
     lm = L.LockModel(cls, lock_map_attrs=('queue_lock_map',))
     for need in ('rlock', 'res_lock', 'plock', 'qlock'):
         if need not in lm.locks:
@@ -251,15 +258,77 @@ def main(chk):
                 if x.how in ('remove', 'discard', 'pop', 'clear', 'popleft'):
                     return not waits_for_truthy
                 return True
-            wr_nodes = [gm.node_of(stmt_of(fn_m, x.node)) for x in lm.writes if x.func == m and x.attr in pred and can_end(x)]
-            nt_nodes = [gm.node_of(stmt_of(fn_m, x.node)) for x in lm.ops if x.func == m and x.lock == w.lock and x.op in ('notify', 'notify_all', 'notifyAll')]
-            wr_nodes = [x for x in wr_nodes if x is not None]
-            nt_nodes = [x for x in nt_nodes if x is not None]
-            okp = bool(wr_nodes) and bool(nt_nodes) and all(gm.must_pass(wn, gm.exit, nt_nodes) for wn in wr_nodes)
+            # per feasible path (constants propagated: `flag = False ... if flag:` is pruned; the stored value is looked at after substitution of path-local names)
+            from verif_static import paths as PT
+            okp = True
+            seen_w = seen_n = False
+            for p_ in PT.enumerate_paths(M.docstring_stripped(fn_m.body)):
+                widx = []
+                for i, e in enumerate(p_):
+                    if e.kind != 'stmt':
+                        continue
+                    st_ = e.node
+                    if isinstance(st_, ast.Assign) and any(isinstance(t_, ast.Attribute) and U(t_.value) == 'self' and t_.attr in pred for t_ in st_.targets):
+                        v_ = PT.resolve(st_.value, e.env)
+                        if isinstance(v_, ast.Constant):
+                            if bool(v_.value) == waits_for_truthy:
+                                widx.append(i)
+                        else:
+                            widx.append(i)
+                    elif isinstance(st_, ast.Expr) and isinstance(st_.value, ast.Call) and isinstance(st_.value.func, ast.Attribute) and \
+                            isinstance(st_.value.func.value, ast.Attribute) and U(st_.value.func.value.value) == 'self' and st_.value.func.value.attr in pred:
+                        how = st_.value.func.attr
+                        if (how in ('add', 'append', 'insert', 'update', 'extend') and waits_for_truthy) or (how in ('remove', 'discard', 'pop', 'clear', 'popleft') and not waits_for_truthy):
+                            widx.append(i)
+                nidx = [i for i, c, cal, env in PT.calls_on(p_) if cal in ('self.%s.notify' % w.lock, 'self.%s.notify_all' % w.lock, 'self.%s.notifyAll' % w.lock)]
+                seen_w = seen_w or bool(widx)
+                seen_n = seen_n or bool(nidx)
+                if widx and not [j for j in nidx if j > max(widx)] and p_[-1].kind != 'raise':
+                    okp = False
+            okp = okp and seen_w and seen_n
             chk.decide(okp, 'waiter-is-woken', '%s:every-path-of-%s' % (inst, m), node=fn_m, file=CT, func=m,
                        detail_bad='%s changes %s but some path from that change to its return does not notify %s (e.g. an early return): the thread waiting in %s() is never woken although '
                                   'its predicate became true' % (m, pred, w.lock, w.func), detail_ok='every path after the change notifies %s' % w.lock)
 
+    # ---- 2b. nothing that can block on the solver thread is reachable through dispatch(): dispatch runs under the @synchronized lock every interface needs, so a command
+    #          that waits there (for a queued command's own lock, or on a condition) keeps all other interfaces - including the one that must call cont() - out
+    tgt = command_targets(cls_raw)
+
+    def blocks(fn):
+        out = []
+        lockvars = set()
+        for a in ast.walk(fn):
+            if isinstance(a, ast.Assign) and isinstance(a.targets[0], ast.Name) and 'queue_lock_map' in U(a.value):
+                lockvars.add(a.targets[0].id)
+        for w_ in ast.walk(fn):
+            if isinstance(w_, ast.With):
+                for it_ in w_.items:
+                    if (isinstance(it_.context_expr, ast.Name) and it_.context_expr.id in lockvars) or 'queue_lock_map[' in U(it_.context_expr):
+                        out.append('waits for the lock of a queued command (`with %s`)' % U(it_.context_expr))
+            if isinstance(w_, ast.Call) and isinstance(w_.func, ast.Attribute):
+                if w_.func.attr == 'wait' and U(w_.func.value).startswith('self.'):
+                    out.append('waits on %s' % U(w_.func.value))
+                if w_.func.attr == 'acquire' and ((isinstance(w_.func.value, ast.Name) and w_.func.value.id in lockvars) or 'queue_lock_map[' in U(w_.func.value)):
+                    out.append('acquires the lock of a queued command')
+        return out
+    seen_b, todo_b, found_b = set(), [t_ for t_ in sorted(tgt) if t_ in M.methods(cls_raw)], []
+    while todo_b:
+        m_ = todo_b.pop()
+        if m_ in seen_b:
+            continue
+        seen_b.add(m_)
+        fn_ = M.methods(cls_raw)[m_]
+        for why_ in blocks(fn_):
+            found_b.append((m_, why_, fn_))
+        for c_ in M.calls(fn_):
+            nm_ = M.call_name(c_) or ''
+            if nm_.startswith('self.') and nm_.count('.') == 1 and nm_[5:] in M.methods(cls_raw):
+                todo_b.append(nm_[5:])
+    chk.decide(not found_b, 'lock-order', 'nothing-dispatched-blocks-on-the-solver', node=found_b[0][2] if found_b else cls_raw, file=CT, func=found_b[0][0] if found_b else 'dispatch',
+               detail_bad='%s is reachable through dispatch() (it is in the dispatch table) and %s: it would wait while holding the dispatch lock, so no other interface can issue a '
+                          'command - not even the cont() the solver is paused for' % (found_b[0][0] if found_b else '', found_b[0][1] if found_b else ''),
+               detail_ok='%d dispatchable commands (and what they call): none waits for a queued command or on a condition' % len(seen_b))
+    chk.floor('dispatchable commands', len(seen_b), 8)
     # ---- 3. locksets (frozen table)
     for attr, lock in sorted(LOCKSET.items()):
         ws = [x for x in lm.writes if x.attr == attr and x.func != '__init__']
@@ -301,7 +370,8 @@ def main(chk):
         ok = bool(qd) and g.dominates(qd[0], pub[0])
         chk.decide(ok, 'command-lock-handoff', 'dispatch:command-stored-before-published', node=disp, file=CT, func='dispatch',
                    detail_bad='the id is queued before its (method, args) record is stored', detail_ok='queue_dict entry before queue.append')
-    rets = [r for r in ast.walk(disp) if isinstance(r, ast.Return) and r.value is not None and 'lock_id' in U(r.value)]
+    app_ids = set(U(g.nodes[p_].ast.value.args[0]) for p_ in pub if g.nodes[p_].ast.value.args)
+    rets = [r for r in ast.walk(disp) if isinstance(r, ast.Return) and r.value is not None and set(x.id for x in ast.walk(r.value) if isinstance(x, ast.Name)) & app_ids]
     chk.decide(bool(rets), 'command-lock-handoff', 'dispatch:returns-task-id', node=disp, file=CT, func='dispatch',
                detail_bad='the task id is not returned to the caller', detail_ok=U(rets[0].value) if rets else '')
     # every request handed a task id has its own queue entry: a return that is not the immediate execution must come after this call's own queue.append
